@@ -183,7 +183,18 @@ func c03Table() map[string]c03Row {
 		// ---- audit
 		"audit.put/1": {req: reqKey, args: func(e *c03Env) []any {
 			return []any{auditBlob(0, 3, detBytes("cid", 32), e.ir[0].PublicKey().Bytes(), 1)}
-		}, key: func(e *c03Env) neotest.Signer { return neotest.NewSingleSigner(walletOf(e.ir[0])) }},
+		}, key: func(e *c03Env) neotest.Signer { return neotest.NewSingleSigner(walletOf(e.ir[0])) },
+			// the result names its author: a colleague's witness (also an Inner Ring member) does not stand in for it
+			also: func(e *c03Env) []c03Class {
+				var cl []c03Class
+				for i := 1; i < len(e.ir); i++ {
+					cl = append(cl, c03Class{fmt.Sprintf("Inner Ring node %d, while the result names node 0 as its author", i), []neotest.Signer{neotest.NewSingleSigner(walletOf(e.ir[i]))}, false})
+				}
+				var all []*keys.PrivateKey
+				all = append(all, e.ir[1:]...)
+				cl = append(cl, c03Class{"the other three Inner Ring nodes as a multisignature", []neotest.Signer{chainkit.Multisig(3, all)}, false})
+				return cl
+			}},
 		"audit.update/3": upd("audit"),
 		// ---- balance
 		"balance.burn/3": {req: reqAlphabet, args: func(e *c03Env) []any { return []any{e.u0.ScriptHash(), int64(5), []byte("d")} }},
